@@ -522,7 +522,7 @@ func newRealP2PEnv(npeers int) *p2pEnv {
 	if err != nil {
 		return nil
 	}
-	e := &p2pEnv{hosts: hosts, closer: closeAll, nilGater: true}
+	e := &p2pEnv{hosts: hosts, closer: closeAll}
 	for i := 1; i <= npeers; i++ {
 		e.peers = append(e.peers, peers.NewScripted(hosts[i]))
 	}
@@ -600,5 +600,9 @@ func (e *p2pEnv) scoredCase(prop, kind string, chunk uint64) {
 			ec = "ctx"
 		}
 	}
-	emit("%s kind=twocalls sub=%s from=%d to=%d chunk=%d first=score%.2f => res=%s err=%s tookms=%d", prop, kind, from, to, chunk, score, r, ec, took.Milliseconds())
+	blocked := 0
+	if e.lastGater != nil {
+		blocked = len(e.lastGater.ListBlockedPeers()) // every peer here is honest: a benign fault must not get one blocked
+	}
+	emit("%s kind=twocalls sub=%s from=%d to=%d chunk=%d first=score%.2f => res=%s err=%s tookms=%d blocked=%d", prop, kind, from, to, chunk, score, r, ec, took.Milliseconds(), blocked)
 }
